@@ -414,6 +414,8 @@ def reference_paths(source: str, params=None, like=None, repo=None):
     normal._tail_pass(fn)
     normal._allany_pass(fn)
     normal._redundant_guard_pass(fn)
+    normal._unroll_pass(fn)
+    normal._while_true_pass(fn)
     if like is not None and repo is not None:
         from .. import callnorm
 
